@@ -902,6 +902,10 @@ func (x *Exec) evalCall(e *Expr, env *Env) Val {
 		}
 		av, ok := env.st.callVals["arg:"+calleeName(e.Args[0])+":"+e.Args[1].String()]
 		if !ok {
+			// no such call on this path: an arbitrary value of the argument's type (guard with called/calledInIter); never skips the clause
+			if at := x.argTypeByName(calleeName(e.Args[0]), e.Args[1].String()); at != nil && !isErrorType(at) {
+				return x.freshVal(env.st, "nocallarg", at)
+			}
 			bail("unknown identifier: callarg(%s, %s): no such call on this path", calleeName(e.Args[0]), e.Args[1].String())
 		}
 		return av
@@ -1139,6 +1143,39 @@ func calleeName(e *Expr) string {
 }
 
 // resultTypeByName: the type of result idx of the function called under this name somewhere in the function under verification.
+// argTypeByName is the static type of argument idx (receiver first) of a direct call of name in the function under verification.
+func (x *Exec) argTypeByName(name, idx string) types.Type {
+	if x.fn == nil {
+		return nil
+	}
+	var i int
+	fmt.Sscanf(idx, "%d", &i)
+	var found types.Type
+	var scan func(f *ssa.Function)
+	scan = func(f *ssa.Function) {
+		for _, b := range f.Blocks {
+			for _, in := range b.Instrs {
+				ci, ok := in.(ssa.CallInstruction)
+				if !ok {
+					continue
+				}
+				cal := ci.Common().StaticCallee()
+				if cal == nil || funcName(cal) != name {
+					continue
+				}
+				if i < len(ci.Common().Args) {
+					found = ci.Common().Args[i].Type()
+				}
+			}
+		}
+		for _, af := range f.AnonFuncs {
+			scan(af)
+		}
+	}
+	scan(x.fn)
+	return found
+}
+
 func (x *Exec) resultTypeByName(name, idx string) types.Type {
 	if x.fn == nil {
 		return nil
